@@ -36,18 +36,23 @@ def generate(rng, tier):
         if rng.random() < 0.5:
             v, _, _, _ = gm.similarity(v, rng, scale=1.0)
         cases.append({"kind": "tria", "family": "cap_strip", "v": v, "t": t, "lump": False, "vdtype": "float64", "tdtype": "int64"})
+    # a surface patch in nanometre units (coordinates ~1e-9, areas ~1e-18: far below the machine epsilon, finding F26)
+    for k in range(2):
+        v, t = gm.grid(3, 2, rng, "smooth", "alt")
+        v = (np.array(v, dtype=float) * 1e-9).tolist()
+        cases.append({"kind": "tria", "family": "nano_tria", "v": v, "t": t, "lump": False, "vdtype": "float64", "tdtype": "int64"})
     out = []
     for c in cases:
         n, T = len(c["v"]), len(c["t"])
         p = np.array(c["v"])
         sc = np.abs(p).max() + 1e-300
-        kind = rng.choice(["rand", "rand", "affine", "affine"]) if c["family"] != "cap_strip" else "affine"
+        kind = rng.choice(["rand", "rand", "affine", "affine"]) if c["family"] not in ("cap_strip", "nano_tria") else "affine"
         a = [rng.uniform(-2, 2) for _ in range(3)]
         if kind == "affine":
             f = (p @ np.array(a) / sc + 0.7).tolist()
         else:
             f = [rng.uniform(-1, 1) for _ in range(n)]
-        fd = rng.choice(["float64", "float64", "float32", "int64", "uint8"]) if c["family"] != "cap_strip" else "float64"
+        fd = rng.choice(["float64", "float64", "float32", "int64", "uint8"]) if c["family"] not in ("cap_strip", "nano_tria") else "float64"
         if fd == "int64":
             f = [float(round(20 * x)) for x in f]
         elif fd == "uint8":
